@@ -2,6 +2,7 @@ package c19
 
 import (
 	"bytes"
+	"context"
 	"encoding/json"
 	"fmt"
 	"strings"
@@ -20,19 +21,49 @@ type Instr struct {
 }
 
 type SharedCase struct {
-	Fam    string  `json:"fam"`
-	Body   []Instr `json:"body"`
-	NProc  int     `json:"nproc"`
-	Sched  []int   `json:"sched"`
+	Fam    string   `json:"fam"`
+	Body   []Instr  `json:"body"`
+	NProc  int      `json:"nproc"`
+	Runs   int      `json:"runs"` // executions per process, one after the other
+	Sched  []int    `json:"sched"`
+	Apis   []string `json:"apis"` // execution interface of every process (SharedProgram!ApiOf)
 	Expect struct {
-		Out []int `json:"out"`
+		Out []int `json:"out"` // values >= 10000 are tokens (SharedProgram!RandTok, Seed0Tok)
 		G   []int `json:"g"`
 	} `json:"expect"`
 }
 
-var sharedConsts = []string{"0", "1", "7", "10"} // SharedProgram!Consts
-var sharedRegex = []string{"/^1/", "/0$/"}       // SharedProgram!Matches
+var sharedConsts = []string{"0", "1", "7", "10"}     // SharedProgram!Consts
+var sharedRegex = []string{"/^1/", "/0$/", "/1|10/"} // SharedProgram!Matches
 var sharedVar = []string{"a", "b"}
+
+// The execution interfaces (SharedProgram!ApiOf).
+const (
+	ApiNewExecute        = "new-execute"
+	ApiNewExecuteContext = "new-executecontext"
+	ApiExecProgram       = "execprogram"
+)
+
+// ExecVia executes prog once through the named interface, with an
+// interpreter of its own.
+func ExecVia(api string, prog *parser.Program, cfg *interp.Config) (int, error) {
+	switch api {
+	case ApiExecProgram:
+		return interp.ExecProgram(prog, cfg)
+	case ApiNewExecuteContext:
+		in, err := interp.New(prog)
+		if err != nil {
+			return 0, err
+		}
+		return in.ExecuteContext(context.Background(), cfg)
+	default:
+		in, err := interp.New(prog)
+		if err != nil {
+			return 0, err
+		}
+		return in.Execute(cfg)
+	}
+}
 
 // RenderShared writes a SharedProgram body as AWK.
 func RenderShared(body []Instr) (string, bool) {
@@ -49,7 +80,15 @@ func RenderShared(body []Instr) (string, bool) {
 		case "add":
 			fmt.Fprintf(&sb, "  %s = %s + %s\n", g, g, sharedConsts[in.K-1])
 		case "match":
-			fmt.Fprintf(&sb, "  %s = (%s ~ %s)\n", g, g, sharedRegex[in.K-1])
+			// the stand-alone literal: the regular expression object compiled into the Program, matched against $0
+			fmt.Fprintf(&sb, "  $0 = %s; %s = (%s ? 1 : 0)\n", g, g, sharedRegex[in.K-1])
+		case "rlen":
+			// the same source on the run-time path (compiled by the interpreter when first used)
+			fmt.Fprintf(&sb, "  match(%s, %s); %s = RLENGTH\n", g, sharedRegex[in.K-1], g)
+		case "rand":
+			sb.WriteString("  print int(rand() * 1000000)\n")
+		case "srand":
+			fmt.Fprintf(&sb, "  print srand(%s)\n", sharedConsts[in.K-1])
 		case "call":
 			fmt.Fprintf(&sb, "  %s = dbl(%s)\n", g, g)
 		case "print":
@@ -67,17 +106,22 @@ func RenderShared(body []Instr) (string, bool) {
 var schedMu sync.Mutex
 
 type procResult struct {
-	out      []byte
+	outs     [][]byte // output of every execution of the process
 	status   int
 	err      error
 	panicked any
 }
 
-// RunScheduled executes n interpreters over ONE program, letting exactly one
-// of them advance by one VM instruction at a time, in the order given by
-// sched (repeated cyclically, finished processes skipped).  The first grant
-// of a process covers interp.New and the set-up of Execute.
-func RunScheduled(prog *parser.Program, n int, sched []int) ([]procResult, int, error) {
+// RunScheduled lets n processes execute ONE program `runs` times each (every
+// execution with an interpreter of its own, through the process's execution
+// interface), letting exactly one of them advance by one VM instruction at a
+// time, in the order given by sched (repeated cyclically, finished processes
+// skipped).  The first grant of an execution covers the allocation of the
+// interpreter and the set-up of the execution.
+func RunScheduled(prog *parser.Program, n int, sched []int, apis []string, runs int) ([]procResult, int, error) {
+	if runs < 1 {
+		runs = 1
+	}
 	schedMu.Lock()
 	defer schedMu.Unlock()
 	grant := make([]chan struct{}, n)
@@ -103,14 +147,15 @@ func RunScheduled(prog *parser.Program, n int, sched []int) ([]procResult, int, 
 						res[i].panicked = r
 					}
 				}()
-				in, err := interp.New(prog)
-				if err != nil {
-					res[i].err = err
-					return
+				api := ApiNewExecute
+				if i < len(apis) {
+					api = apis[i]
 				}
-				var out bytes.Buffer
-				res[i].status, res[i].err = in.Execute(&interp.Config{Stdin: strings.NewReader(""), Output: &out, Error: &out, Environ: []string{}})
-				res[i].out = out.Bytes()
+				for k := 0; k < runs && res[i].err == nil; k++ {
+					var out bytes.Buffer
+					res[i].status, res[i].err = ExecVia(api, prog, &interp.Config{Stdin: strings.NewReader(""), Output: &out, Error: &out, Environ: []string{}})
+					res[i].outs = append(res[i].outs, out.Bytes())
+				}
 			}()
 			done <- i
 		}(i)
@@ -153,6 +198,33 @@ func RunScheduled(prog *parser.Program, n int, sched []int) ([]procResult, int, 
 	return res, arrivals, nil
 }
 
+// tokenMap checks one execution's output against the predicted values: plain
+// values must be printed exactly; a token (a random number, the initial seed)
+// may be any number, but the same token must be the same text in every
+// execution of the case (tm accumulates the binding).
+func tokenMap(tm map[int]string, want []int, got []byte) string {
+	lines := strings.Split(strings.TrimSuffix(string(got), "\n"), "\n")
+	if len(got) == 0 {
+		lines = nil
+	}
+	if len(lines) != len(want) {
+		return fmt.Sprintf("%d lines of output, the specification says %d", len(lines), len(want))
+	}
+	for j, w := range want {
+		if w < 10000 {
+			if lines[j] != fmt.Sprint(w) {
+				return fmt.Sprintf("line %d is %q, the specification says %d", j+1, lines[j], w)
+			}
+			continue
+		}
+		if prev, ok := tm[w]; ok && prev != lines[j] {
+			return fmt.Sprintf("line %d (token %d: a random number or the initial seed) is %q here and %q in another execution", j+1, w, lines[j], prev)
+		}
+		tm[w] = lines[j]
+	}
+	return ""
+}
+
 func replayShared(raw json.RawMessage) hx.Outcome {
 	var c SharedCase
 	if err := json.Unmarshal(raw, &c); err != nil || c.NProc < 1 || len(c.Sched) == 0 {
@@ -170,8 +242,36 @@ func replayShared(raw json.RawMessage) hx.Outcome {
 	for _, v := range c.Expect.Out {
 		fmt.Fprintf(&want, "%d\n", v)
 	}
+	cls := "plain"
+	for _, in := range c.Body {
+		switch in.Op {
+		case "match", "rlen":
+			cls = "regex"
+		case "rand", "srand":
+			if cls != "regex" {
+				cls = "random"
+			}
+		case "call":
+			if cls == "plain" {
+				cls = "call"
+			}
+		}
+	}
+	// the reference: one execution on a Program of its own
+	tm := map[int]string{}
+	if own, err := parser.ParseProgram([]byte(src), nil); err == nil {
+		var out bytes.Buffer
+		schedMu.Lock() // no scheduled run (whose step hook is global) is in progress
+		_, xerr := ExecVia(ApiNewExecute, own, &interp.Config{Stdin: strings.NewReader(""), Output: &out, Error: &out, Environ: []string{}})
+		schedMu.Unlock()
+		if xerr == nil {
+			if d := tokenMap(tm, c.Expect.Out, out.Bytes()); d != "" {
+				return hx.Fail("C19/shared/single-execution/"+cls, "a single execution on a Program of its own: "+d, want.String(), out.String(), src)
+			}
+		}
+	}
 	before := Digest(prog)
-	res, arrivals, rerr := RunScheduled(prog, c.NProc, c.Sched)
+	res, arrivals, rerr := RunScheduled(prog, c.NProc, c.Sched, c.Apis, c.Runs)
 	if rerr != nil {
 		return hx.Fail("C19/shared/stuck", rerr.Error(), want.String(), nil, src)
 	}
@@ -180,26 +280,27 @@ func replayShared(raw json.RawMessage) hx.Outcome {
 		return hx.Outcome{Skipped: true, Note: "step hook inactive"}
 	}
 	after := Digest(prog)
-	cls := "plain"
-	for _, in := range c.Body {
-		if in.Op == "match" {
-			cls = "regex"
-		} else if in.Op == "call" && cls == "plain" {
-			cls = "call"
-		}
-	}
 	for i, r := range res {
-		if r.panicked != nil {
-			return hx.Fail("C19/shared/panic", fmt.Sprintf("interpreter %d panicked: %v", i+1, r.panicked), want.String(), nil, src)
+		api := ApiNewExecute
+		if i < len(c.Apis) {
+			api = c.Apis[i]
 		}
-		if r.err != nil || string(r.out) != want.String() {
-			return hx.Fail("C19/shared/result-differs/"+cls,
-				fmt.Sprintf("interpreter %d of %d (schedule %v) did not produce the result of running alone", i+1, c.NProc, c.Sched),
-				want.String(), fmt.Sprintf("%s err=%v", r.out, r.err), src)
+		if r.panicked != nil {
+			return hx.Fail("C19/shared/panic", fmt.Sprintf("process %d (%s) panicked: %v", i+1, api, r.panicked), want.String(), nil, src)
+		}
+		if r.err != nil {
+			return hx.Fail("C19/shared/result-differs/"+cls+"/"+api, fmt.Sprintf("process %d of %d (%s): error %v", i+1, c.NProc, api, r.err), want.String(), nil, src)
+		}
+		for k, out := range r.outs {
+			if d := tokenMap(tm, c.Expect.Out, out); d != "" {
+				return hx.Fail("C19/shared/result-differs/"+cls+"/"+api,
+					fmt.Sprintf("execution %d of process %d of %d (%s, schedule %v) did not produce the result of a single execution: %s", k+1, i+1, c.NProc, api, c.Sched, d),
+					want.String(), string(out), src)
+			}
 		}
 	}
 	if before != after {
-		return hx.Fail("C19/shared/program-modified/"+cls, "the structural digest of the Program changed during execution", before, after, src)
+		return hx.Fail("C19/shared/program-modified/"+cls, "the structural digest of the Program (state of its compiled regular expressions included) changed during execution", before, after, src)
 	}
-	return hx.OK(c.NProc > 1 && len(c.Body) > 0)
+	return hx.OK((c.NProc > 1 || c.Runs > 1) && len(c.Body) > 0)
 }
